@@ -83,3 +83,68 @@ pub mod headers {
     pub use crate::encoding::block_header::BlockHeader as EncBlockHeader;
     pub use crate::encoding::frame_header::FrameHeader as EncFrameHeader;
 }
+
+/// Bit readers / writer (C01, C02, C12, C13).
+pub mod bits {
+    pub use crate::bit_io::{
+        VerifBitReader as BitReader, VerifBitReaderReversed as BitReaderReversed,
+    };
+    use std::vec::Vec;
+
+    /// Newtype over the crate-private `BitWriter<Vec<u8>>`; every method is a pass-through.
+    pub struct BitWriter(crate::bit_io::BitWriter<Vec<u8>>);
+    impl Default for BitWriter {
+        fn default() -> Self {
+            Self::new()
+        }
+    }
+    impl BitWriter {
+        pub fn new() -> Self {
+            BitWriter(crate::bit_io::BitWriter::new())
+        }
+        pub fn from(v: Vec<u8>) -> Self {
+            BitWriter(crate::bit_io::BitWriter::from(v))
+        }
+        pub fn index(&self) -> usize {
+            self.0.index()
+        }
+        pub fn reset_to(&mut self, index: usize) {
+            self.0.reset_to(index)
+        }
+        pub fn change_bits(&mut self, idx: usize, bits: u64, num_bits: usize) {
+            self.0.change_bits(idx, bits, num_bits)
+        }
+        pub fn append_bytes(&mut self, data: &[u8]) {
+            self.0.append_bytes(data)
+        }
+        pub fn flush(&mut self) {
+            self.0.flush()
+        }
+        pub fn write_bits(&mut self, bits: u64, num_bits: usize) {
+            self.0.write_bits(bits, num_bits)
+        }
+        pub fn misaligned(&self) -> usize {
+            self.0.misaligned()
+        }
+        pub fn dump(self) -> Vec<u8> {
+            self.0.dump()
+        }
+    }
+}
+
+/// Entropy coders: decoder tables are public through `fuzz_exports`; these are the encoder sides.
+pub mod entropy {
+    pub use crate::fse::fse_encoder::verif as fse_enc;
+    pub use crate::fse::fse_encoder::FSETable as FseEncTable;
+    pub use crate::huff0::huff0_encoder::verif as huf_enc;
+    pub use crate::huff0::huff0_encoder::HuffmanTable as HufEncTable;
+}
+
+/// Block-level decoding on a caller-supplied scratch (C01, C03, C09).
+pub mod sections {
+    pub use crate::blocks::sequence_section::Sequence;
+    pub use crate::decoding::literals_section_decoder::decode_literals;
+    pub use crate::decoding::scratch::{DecoderScratch, FSEScratch, HuffmanScratch};
+    pub use crate::decoding::sequence_execution::execute_sequences;
+    pub use crate::decoding::sequence_section_decoder::decode_sequences;
+}
